@@ -35,3 +35,69 @@ Theorem couple_registers s a b : In b (couple s a b a) /\ In a (couple s a b b).
 Proof. rewrite !couple_spec. auto. Qed.
 Theorem couple_frame s a b x : x <> a -> x <> b -> couple s a b x = s x.
 Proof. intros Ha Hb. unfold couple. rewrite !cupd_other by assumption. reflexivity. Qed.
+
+(* ---- exact characterisation: the partners of x are exactly the groups registered with x, in either role ---- *)
+Lemma in_add_unless_present y x l : In y (add_unless_present x l) <-> y = x \/ In y l.
+Proof.
+  unfold add_unless_present. destruct (existsb (Nat.eqb x) l) eqn:E.
+  - split; [intros H; right; exact H|]. intros [->|H]; [|exact H].
+    apply existsb_exists in E as [z [Hz Hxz]]. apply Nat.eqb_eq in Hxz. subst z. exact Hz.
+  - rewrite in_app_iff. cbn [In]. split; [intros [H|[H|[]]]; [right; exact H|left; symmetry; exact H] | intros [->|H]; [right; left; reflexivity|left; exact H]].
+Qed.
+Lemma in_couple s a b x y : In y (couple s a b x) <-> In y (s x) \/ (x = a /\ y = b) \/ (x = b /\ y = a).
+Proof.
+  unfold couple, cupd.
+  destruct (Nat.eqb x b) eqn:Exb; [apply Nat.eqb_eq in Exb; subst x | apply Nat.eqb_neq in Exb].
+  - rewrite in_add_unless_present.
+    destruct (Nat.eqb b a) eqn:Eba; [apply Nat.eqb_eq in Eba; subst b | apply Nat.eqb_neq in Eba].
+    + rewrite in_add_unless_present. tauto.
+    + split; [intros [->|H]; [right; right; split; reflexivity | left; exact H] | intros [H|[[H _]|[_ ->]]]; [right; exact H | congruence | left; reflexivity]].
+  - destruct (Nat.eqb x a) eqn:Exa; [apply Nat.eqb_eq in Exa; subst x | apply Nat.eqb_neq in Exa].
+    + rewrite in_add_unless_present. split; [intros [->|H]; [right; left; split; reflexivity | left; exact H] | intros [H|[[_ ->]|[H _]]]; [right; exact H | left; reflexivity | congruence]].
+    + split; [intros H; left; exact H | intros [H|[[H _]|[H _]]]; [exact H | congruence | congruence]].
+Qed.
+Lemma in_couple_fold ops : forall s x y,
+  In y (fold_left (fun s p => couple s (fst p) (snd p)) ops s x) <->
+  In y (s x) \/ exists a b, In (a, b) ops /\ ((x = a /\ y = b) \/ (x = b /\ y = a)).
+Proof.
+  induction ops as [|[a b] r IH]; intros s x y; cbn [fold_left fst snd].
+  - split; [intros H; left; exact H | intros [H|(a & b & [] & _)]; exact H].
+  - rewrite IH, in_couple. split.
+    + intros [[H|H]|(a' & b' & Hin & H)].
+      * left; exact H.
+      * right. exists a, b. split; [left; reflexivity | exact H].
+      * right. exists a', b'. split; [right; exact Hin | exact H].
+    + intros [H|(a' & b' & [Heq|Hin] & H)].
+      * left; left; exact H.
+      * injection Heq as <- <-. left; right; exact H.
+      * right. exists a', b'. split; assumption.
+Qed.
+Theorem partners_are_the_registered ops x y :
+  In y (couple_all ops x) <-> exists a b, In (a, b) ops /\ ((x = a /\ y = b) \/ (x = b /\ y = a)).
+Proof.
+  unfold couple_all. rewrite in_couple_fold. unfold cinit. cbn [In]. tauto.
+Qed.
+(* each partner is listed once (one star source per partner), for every sequence of registrations *)
+Lemma nodup_add_unless_present x l : NoDup l -> NoDup (add_unless_present x l).
+Proof.
+  intros H. unfold add_unless_present. destruct (existsb (Nat.eqb x) l) eqn:E; [exact H|].
+  assert (Hx : ~ In x l).
+  { intros Hin. assert (existsb (Nat.eqb x) l = true) by (apply existsb_exists; exists x; split; [exact Hin | apply Nat.eqb_refl]). congruence. }
+  clear E. induction H as [|z r Hz Hr IH]; cbn [app]; [constructor; [intros []|constructor]|].
+  constructor.
+  - rewrite in_app_iff. cbn [In]. intros [Hin|[Heq|[]]]; [exact (Hz Hin)|]. apply Hx. left. symmetry. exact Heq.
+  - apply IH. intros Hin. apply Hx. right. exact Hin.
+Qed.
+Lemma nodup_couple s a b : (forall x, NoDup (s x)) -> forall x, NoDup (couple s a b x).
+Proof.
+  intros H x. unfold couple, cupd.
+  destruct (Nat.eqb x b); [apply nodup_add_unless_present; destruct (Nat.eqb b a); [apply nodup_add_unless_present|]; apply H|].
+  destruct (Nat.eqb x a); [apply nodup_add_unless_present|]; apply H.
+Qed.
+Theorem partners_listed_once ops x : NoDup (couple_all ops x).
+Proof.
+  unfold couple_all.
+  assert (G : forall s, (forall x, NoDup (s x)) -> forall x, NoDup (fold_left (fun s p => couple s (fst p) (snd p)) ops s x)).
+  { induction ops as [|p r IH]; intros s Hs; cbn [fold_left]; [exact Hs|]. apply IH. apply nodup_couple. exact Hs. }
+  apply G. intros z. constructor.
+Qed.
